@@ -1,7 +1,8 @@
 (* C27 -- Byte-level BPE tokenization round-trips and reports consistent offsets.
    Only statements; every proof is `exact <lemma>`. *)
 From RV Require Import Prelude.
-From Bpe Require Import ModelBpe Ref_proofs Merge_proofs Encode_proofs Roundtrip_proofs Offsets_proofs Vocab_proofs.
+From Bpe Require Import ModelBpe Ref_proofs Merge_proofs Encode_proofs Roundtrip_proofs Offsets_proofs Vocab_proofs Oracle_proofs.
+From Bpe Require ModelC27.
 Open Scope N_scope.
 
 (* (1) byte_to_char / char_to_byte are mutually inverse on the 256 bytes (finite part by
@@ -92,6 +93,16 @@ Theorem C27_offsets_monotone_boundaries_cover : forall b text nm pieces ids offs
                 exists sl, text_for_token text offs i = Some sl /\ nth_error (slices text offs) i = Some sl
   end.
 Proof. exact offsets_monotone_boundaries_cover. Qed.
+
+(* (5) the executable oracle of the correspondence check is sound: offsets and slices it
+       accepts are non-decreasing, in range, on char boundaries, one slice per token, and the
+       slices concatenate to the input *)
+Theorem C27_oracle_sound : forall text ids offs sl,
+  ModelC27.offsets_ok text ids offs sl = true ->
+  sorted_le offs = true /\
+  Forall (fun o => o <= N.of_nat (length text) /\ is_char_boundary text o = true) offs /\
+  exists ss, sl = map Some ss /\ length ss = length ids /\ concat ss = text.
+Proof. exact c27_offsets_ok_sound. Qed.
 
 (* non-vacuity: "é a" (c3 a9 20 61) split as "é" | " a" with the merge (Ã,©): the two bytes of
    é become one token; three tokens, offsets 0,2,2 and the final 4 *)
